@@ -260,6 +260,43 @@ PROPS["C14"] = dict(
     thorough=[c14collect(2, 1, 1800), c14collect(3, 0, 1800), c14render(0, 2, 1, 1800), c14render(1, 2, 1, 1800), c14render(1, 2, 0, 1800)],
 )
 
+C01H = ["gqlds/c01_exec.go", "gqlds/c01_fed.go", "common/zz_json.go"]
+
+def c01(depth, budget, maxdev, timeout=1800):
+    return spec("H-C01a[%d,%d,%d]" % (depth, budget, maxdev), "./pkg/engine/datasource/graphql_datasource", C01H, "VerifC01Fed", [depth, budget, maxdev],
+                "federation F1 (users/reviews/products: 3 subgraphs, 3 entity types with single-field keys, nested entity jumps in both directions, lists, nullable and non-null fields); operations: one of 3 root fields + optional aliased second root field, nesting depth <=%d, at most %d optional parts (solver-chosen); data: fixed object graph with one of %d single-null deviations (nullable null, non-null violated in users/reviews subgraph, list null, entity reference null); real normalization, validation, planner, post-processing, resolver, loader, resolvable; subgraphs = reference executor on the same data answering whatever query they are sent, validating each request against the subgraph's federation schema" % (depth, budget, maxdev + 1),
+                ["clean"] + (["with errors"] if maxdev >= 2 else []), timeout=timeout)
+
+PROPS["C01"] = dict(
+    title="Federated execution equals monolithic execution of the supergraph",
+    level_text="bounded symbolic execution of the whole gateway pipeline (astnormalization, astvalidation, plan.Planner with the graphql_datasource planner, postprocess, resolve.Resolver/Loader/Resolvable) interpreted from go/ssa; the operation's optional parts and the data deviation are solver decisions, every combination within the bounds is explored; oracle = a reference GraphQL executor (CollectFields/CompleteValue with null bubbling) run as the monolith on the supergraph and, behind the real loader, as each subgraph on its own schema: data equality, error presence equivalence, planning success, every subgraph request valid against the subgraph schema and asking only for fields it defines",
+    level_note="bounds: one federation layout (F1), generated operation family, fixed data graph with single deviations; no @requires/@provides/abstract types/arguments/variables yet; goroutine schedule of planner and loader fixed (run to completion in spawn order), map iteration order fixed (insertion order) - both varied separately under C09; trusted base: gosym incl. its encoding/json and timer models, the reference executor",
+    design_ref="DESIGN.md §4 C01",
+    assumptions=["the data universe is consistent: every subgraph sees the same value for a shared field", "timers/tickers never fire (heartbeat loop idle)", "fixed goroutine schedule and map order (varied under C09)"],
+    stubs=["subgraph HTTP transport replaced by a DataSource stub that parses the rendered request input and executes the query with the reference executor", "encoding/json, reflect.TypeOf(x).String(), time.NewTicker/NewTimer/AfterFunc: engine models", "go-arena: no arena"],
+    quick=[c01(2, 2, 0), c01(2, 1, 7)],
+    thorough=[c01(2, 3, 7, 3000), c01(3, 4, 0, 3000)],
+)
+
+C09H = ["gqlds/c01_plan.go", "gqlds/c09_determinism.go"]
+C09OPS = ["nested entity jumps", "two root fields, deep nesting", "variables, @include, fragment spread", "aliases, same root field twice"]
+
+def c09(op, mapb, sched, preempt=1, timeout=1800):
+    return spec("H-C09a[%d,%d,%d|p%d]" % (op, mapb, sched, preempt), "./pkg/engine/datasource/graphql_datasource", C09H, "VerifC09Determinism", [op, mapb, sched],
+                "operation %d (%s) on a 2-subgraph federation planned twice with fresh planners: reference with insertion-ordered maps and run-to-completion goroutines, then with at most %d map iterations (anywhere in normalization, validation, planning, post-processing) started at a solver-chosen rotation%s; digest = fetch tree structure, every subgraph request, dependencies, merge paths, response shape" % (op, C09OPS[op], mapb, " and every schedule of the planner's per-data-source goroutines with <=%d preemptions" % preempt if sched else ""),
+                ["planned"], timeout=timeout, preempt=preempt)
+
+PROPS["C09"] = dict(
+    title="Planning is deterministic; caching and plan optimizations are transparent",
+    level_text="bounded symbolic execution of the real planner pipeline with map iteration order and goroutine schedule as decision variables: the engine's maps iterate in insertion order by default and, when exploration is on, every range over a map with >=2 entries starts at a solver-chosen rotation (bounded number of non-default choices per path); the planner's parallel node collection runs under the engine scheduler. The plan digest must equal the reference digest on every explored order/schedule",
+    level_note="bounds: 4 fixed operations, rotations only (not all permutations), <=2 non-default map orders per path, preemption bound 1; plan-cache transparency, variable renaming and the optimisation on/off equivalences (dedup, multi-fetch, scheduling, minification) are not covered by this check (structure-level checks of the optimisations are under C08); trusted base: gosym scheduler and map model",
+    design_ref="DESIGN.md §4 C09",
+    assumptions=["A-DRF for the planner's goroutines"],
+    stubs=["encoding/json, reflect.TypeOf(x).String(): engine models"],
+    quick=[c09(3, 2, 0), c09(0, 1, 1)],
+    thorough=[c09(0, 2, 1, 1, 3000), c09(1, 1, 1, 1, 3000), c09(2, 1, 1, 1, 3000)],
+)
+
 NOT_APPLICABLE = {
     "C20": "The gRPC datasource's data path runs on protoreflect/dynamicpb/protocompile (reflection, unsafe, generated descriptors); no SSA->SMT encoding of it is within reach of the engine built here, and the property is about exactly that path (DESIGN.md §5).",
 }
@@ -270,6 +307,10 @@ def main():
     for pid, p in sorted(PROPS.items()):
         checks[pid] = {"level": "model_checking", "assumptions": p.get("assumptions", []), "stubs": p.get("stubs", []),
                        "quick": p["quick"], "thorough": p.get("thorough", [])}
+    # engine self-checks (translation validation of engine models against the native build); not a property
+    checks["SELF"] = {"level": "model_checking", "assumptions": [], "stubs": [], "thorough": [],
+                      "quick": [spec("S-json", "./pkg/engine/cache", ["cache/zz_jsontest.go"], "VerifJSONModel", [], "encoding/json model vs native encoding/json on a fixed corpus of typed values (witness replay compares every observation)"),
+                                spec("S-merge", "./pkg/engine/cache", ["cache/zz_mergetest.go"], "VerifMergeTest", [], "merged evaluation vs forked reference")]}
     json.dump(checks, open(os.path.join(HERE, "checks.json"), "w"), indent=1)
     all_ids = ["C%02d" % i for i in range(1, 21)]
     na = []
